@@ -416,6 +416,10 @@ def single (x : R (List Expr)) : R Expr :=
 def sameLen (orig : List Expr) (x : R (List Expr)) : R (List Expr) :=
   x.bind fun l n => if l.length = orig.length then .ok (l, n) else .error .notSingle
 
+/-- `arguments.defaults` (aligned with the *last* parameters): may shrink, must not grow -/
+def atMost (orig : List Expr) (x : R (List Expr)) : R (List Expr) :=
+  x.bind fun l n => if l.length ≤ orig.length then .ok (l, n) else .error .notSingle
+
 def isName : Expr → Bool
   | .name .. => true
   | _ => false
@@ -458,8 +462,8 @@ def instE (b : Bindings) : Expr → Nat → R (List Expr)
   | .keyword _ f_arg f_hasArg f_value, n =>
       match (if f_hasArg then b.lookup f_arg else none) with
       | some bd =>
-          let r := copyEs bd.exprs n
-          if r.1.all isKeyword && !r.1.isEmpty then .ok (r.1, r.2) else .error .keywordRepl
+          if bd.exprs.all isKeyword && !bd.exprs.isEmpty then (let r := copyEs bd.exprs n; .ok (r.1, r.2))
+          else .error .keywordRepl
       | none => (single (instE b f_value (n + 1))).bind fun v' n1 => .ok ([.keyword n f_arg f_hasArg v'], n1)
   | .arg _ f_name f_annotation, n =>
       match b.lookup f_name with
@@ -528,7 +532,7 @@ def instE (b : Bindings) : Expr → Nat → R (List Expr)
       (instEs b f_kwonly (n2)).bind fun f_kwonly' n3 =>
       (sameLen f_kwDefaults (instEs b f_kwDefaults (n3))).bind fun f_kwDefaults' n4 =>
       (sameLen f_kwarg (instEs b f_kwarg (n4))).bind fun f_kwarg' n5 =>
-      (instEs b f_defaults (n5)).bind fun f_defaults' n6 =>
+      (atMost f_defaults (instEs b f_defaults (n5))).bind fun f_defaults' n6 =>
       .ok ([.arguments n f_posonly' f_args' f_vararg' f_kwonly' f_kwDefaults' f_kwarg' f_defaults'], n6)
   | .withitem _ f_contextExpr f_optionalVars, n =>
       (single (instE b f_contextExpr (n + 1))).bind fun f_contextExpr' n0 =>
@@ -664,6 +668,17 @@ def instantiate (t : List Stmt) (b : Bindings) : Except TemplErr (List Stmt) :=
   | .ok (r, _) => .ok r
   | .error e => .error e
 
+/-- `templates.replace(template, **bindings)` when the template is a bare placeholder bound to one expression-side
+node: the result list holds that (copied, adjusted) node itself, not a statement. -/
+def instantiateBare (t : List Stmt) (b : Bindings) : Except TemplErr Expr :=
+  match t with
+  | [.expr _ (.name _ s c)] =>
+      match b.lookup s with
+      | some (.node e) => .ok (adjTop c (copyE e (startLabel b)).1)
+      | some (.nodes [e]) => .ok (adjTop c (copyE e (startLabel b)).1)
+      | _ => .error .notExpression
+  | _ => .error .notExpression
+
 /-- `templates.replace_as_expression(template, **bindings)`: exactly one result node, an `Expr` statement (its value is
 returned) or a bare `Name` (a top-level placeholder bound to a name). -/
 def instantiateExpr (t : List Stmt) (b : Bindings) : Except TemplErr Expr :=
@@ -701,7 +716,9 @@ def usesOkE (b : Bindings) : Expr → Bool
       match (if f_hasArg then b.lookup f_arg else none) with
       | some _ => true
       | none => usesOkE b f_value
-  | .arg .. => true
+  | .arg _ f_name _ => match b.lookup f_name with
+      | some bd => bd.exprs.all (fun x => isName x || !hasCtxField x)
+      | none => true
   | .attr _ f_value f_attr f_ctx => usesOkE b f_value
   | .subscript _ f_value f_slice f_ctx => usesOkE b f_value && (usesOkE b f_slice)
   | .seq _ f_kind f_elts f_ctx => usesOkEs b f_elts
